@@ -175,6 +175,8 @@ def _contains(root, node):
 def run(chk):
     cfgs = ["base", "z"]
     chk.configs = cfgs
+    chk.rule("EMIT.every-path", "OffsetPolygon, OffsetOpenJoined and OffsetOpenPath append a contour to the solution on every path through them (must-pass "
+             "dataflow over the structured CFG, sibling calls resolved by fix-point): no path handed to them is dropped by a shortcut")
     chk.rule("THRESHOLD.bisector", "the length below which NormalizeVector gives up (AlmostZero's epsilon) is not above the shortest bisector sum DoSquare can see, "
              "sqrt(2 - 2C) with C the cosine above which OffsetPoint sends a join to DoMiter - both literals read from the code")
     chk.rule("LOOP", "no member or outer local is written while offsetting one path/group and read while offsetting the next before re-initialisation")
@@ -230,6 +232,7 @@ def run(chk):
         e14.rule_offset(db, chk, cfg)
         e12.join_dispatch_table(db, chk, cfg)
         e12.bisector_threshold_rule(db, chk, cfg)
+        e12.emit_every_path_rule(db, chk, cfg)
     chk.floor("LOOP", 2 * len(cfgs))
     chk.floor("DELTA.abs-only", 4 * len(cfgs))
     chk.floor("CAP.table", 6 * len(cfgs))
